@@ -2,6 +2,7 @@ package props
 
 import (
 	"fmt"
+	"regexp"
 	"strings"
 	"testing"
 
@@ -16,6 +17,10 @@ type c02Entry struct {
 	Text  string    `json:"text"`
 	Model *NetModel `json:"model,omitempty"` // nil for hosts lines / bare domains
 	List  int       `json:"list"`            // index into the list ids
+	// Names/IP: set by the generator for hosts lines and bare domains it wrote itself; the reference then
+	// reads the line at text level instead of asking the parser under test what kind of line it is
+	Names []string `json:"names,omitempty"`
+	IP    string   `json:"ip,omitempty"`
 }
 
 type c02Case struct {
@@ -88,6 +93,17 @@ func checkC02(c c02Case, rec *Rec) *Violation {
 		keys := map[*rules.NetworkRule]string{}
 		w4, w6 := map[string]bool{}, map[string]bool{}
 		for _, e := range c.Entries {
+			if len(e.Names) > 0 {
+				// a hosts line the generator wrote: address, names, optional comment
+				if inList(q.Hostname, e.Names) {
+					if strings.Contains(e.IP, ":") {
+						w6[strings.TrimSpace(e.Text)] = true
+					} else {
+						w4[strings.TrimSpace(e.Text)] = true
+					}
+				}
+				continue
+			}
 			ruAny, perr := rules.NewRule(e.Text, c.IDs[e.List])
 			if perr != nil || ruAny == nil {
 				continue
@@ -239,6 +255,17 @@ func genC02(t *rapid.T) c02Case {
 	for _, cp := range hostColliders[:3] {
 		netPats = append(netPats, "||"+cp[0]+"^", "||"+cp[1]+"^", cp[0][:4], "/^"+cp[0][:3]+"[0-9]/")
 	}
+	var longAliases []string
+	// plainNames: the names are ordinary ASCII domain names (the documented shape of a hosts line); other
+	// lines are left to the parser's own classification
+	plainNames := func(ns []string) []string {
+		for _, n := range ns {
+			if !regexp.MustCompile(`^[a-z0-9-]+(\.[a-z0-9-]+)*$`).MatchString(n) || regexp.MustCompile(`^[0-9.]+$`).MatchString(n) {
+				return nil
+			}
+		}
+		return ns
+	}
 	k := rapid.IntRange(1, 16).Draw(t, "nentries")
 	for i := 0; i < k; i++ {
 		li := rapid.IntRange(0, nl-1).Draw(t, "list")
@@ -246,9 +273,18 @@ func genC02(t *rapid.T) c02Case {
 			hs := subsetOf(t, "names", hostsU, 3)
 			ip := pick(t, "ip", []string{"0.0.0.0", "127.0.0.1", "::", "::1", "::ffff:1.2.3.4", "10.0.0.1", "fe80::1"})
 			if chance(t, "bare-domain", 4) {
-				c.Entries = append(c.Entries, c02Entry{Text: hs[0], List: li})
+				c.Entries = append(c.Entries, c02Entry{Text: hs[0] + pick(t, "bare-tail", []string{"", "", " # note", "\t# note", "\t#x", "  #"}), List: li, Names: plainNames(hs[:1]), IP: "0.0.0.0"})
+			} else if rare(t, "long-hosts-line", 8) {
+				// a hosts line longer than the list reader's block: aliases on both sides of the boundary
+				var al []string
+				for i := 0; i < rapid.IntRange(280, 420).Draw(t, "naliases"); i++ {
+					al = append(al, fmt.Sprintf("alias%03d.example", i))
+				}
+				al = append(al, hs[0])
+				c.Entries = append(c.Entries, c02Entry{Text: ip + " " + strings.Join(al, " "), List: li, Names: plainNames(al), IP: ip})
+				longAliases = append(longAliases, al[3], al[len(al)/2], al[len(al)-2])
 			} else {
-				c.Entries = append(c.Entries, c02Entry{Text: ip + pick(t, "ws", []string{" ", "\t", "  "}) + strings.Join(hs, " "), List: li})
+				c.Entries = append(c.Entries, c02Entry{Text: ip + pick(t, "ws", []string{" ", "\t", "  "}) + strings.Join(hs, " ") + pick(t, "line-tail", []string{"", "", " # c", "\t#c"}), List: li, Names: plainNames(hs), IP: ip})
 			}
 			continue
 		}
@@ -294,6 +330,9 @@ func genC02(t *rapid.T) c02Case {
 	nq := rapid.IntRange(4, 12).Draw(t, "nreq")
 	for i := 0; i < nq; i++ {
 		q := Q{Host: true, Hostname: pick(t, "qhost", hostsU)}
+		if len(longAliases) > 0 && chance(t, "long-alias", 3) {
+			q.Hostname = pick(t, "alias", longAliases)
+		}
 		if chance(t, "qdnstype", 2) {
 			q.DNSType = pick(t, "dnstype", dnsNames)
 		}
